@@ -925,6 +925,25 @@ namespace hgraph
                                  !runtime.layout.has_input() ||
                                  ready_to_evaluate(view, evaluation_time);
 
+            // The scheduler bookkeeping also has to run when evaluate throws: the
+            // exception may be caught further up (try_except, map_) with the child
+            // graph kept, and a fired event left at the head of the node's event
+            // set would stop every later alarm of this node from being delivered.
+            UnwindCleanupGuard rearm_scheduler([&] {
+                if (!has_scheduler) { return; }
+                auto         &graph = *view.graph_value();
+                NodeScheduler sched{*scheduler, &graph, view.node_index(), evaluation_time};
+                if (scheduled_now)
+                {
+                    sched.advance();  // consume the fired event(s) and re-arm the next
+                }
+                else if (sched.is_scheduled())
+                {
+                    // Ran for another reason (an input ticked): just re-arm the timer.
+                    graph.schedule_node(view.node_index(), sched.next_scheduled_time());
+                }
+            });
+
             if (do_eval)
             {
                 if (callbacks(context).evaluate)
@@ -950,20 +969,7 @@ namespace hgraph
                 }
             }
 
-            if (has_scheduler)
-            {
-                auto         &graph = *view.graph_value();
-                NodeScheduler sched{*scheduler, &graph, view.node_index(), evaluation_time};
-                if (scheduled_now)
-                {
-                    sched.advance();  // consume the fired event(s) and re-arm the next
-                }
-                else if (sched.is_scheduled())
-                {
-                    // Ran for another reason (an input ticked): just re-arm the timer.
-                    graph.schedule_node(view.node_index(), sched.next_scheduled_time());
-                }
-            }
+            rearm_scheduler.complete();
             return true;
         }
 
